@@ -124,6 +124,42 @@ func vrfPanics(f func()) (p bool) {
 
 func vrfDeepEqual(a, b interface{}) bool { return reflect.DeepEqual(a, b) }
 
+// vrfSameSet: the two slices have the same elements, multiplicities ignored; vrfNoDup: no element occurs twice.
+func vrfSameSet(a, b interface{}) bool {
+	va, vb := reflect.ValueOf(a), reflect.ValueOf(b)
+	in := func(x reflect.Value, l reflect.Value) bool {
+		for j := 0; j < l.Len(); j++ {
+			if reflect.DeepEqual(x.Interface(), l.Index(j).Interface()) {
+				return true
+			}
+		}
+		return false
+	}
+	for i := 0; i < va.Len(); i++ {
+		if !in(va.Index(i), vb) {
+			return false
+		}
+	}
+	for i := 0; i < vb.Len(); i++ {
+		if !in(vb.Index(i), va) {
+			return false
+		}
+	}
+	return true
+}
+
+func vrfNoDup(a interface{}) bool {
+	va := reflect.ValueOf(a)
+	for i := 0; i < va.Len(); i++ {
+		for j := i + 1; j < va.Len(); j++ {
+			if reflect.DeepEqual(va.Index(i).Interface(), va.Index(j).Interface()) {
+				return false
+			}
+		}
+	}
+	return true
+}
+
 // vrfSameMultiset: two slices hold the same elements with the same multiplicities (element equality = DeepEqual).
 func vrfSameMultiset(a, b interface{}) bool {
 	va, vb := reflect.ValueOf(a), reflect.ValueOf(b)
